@@ -112,7 +112,7 @@ func (f *String) Unmarshal(v interface{}) error {
 		case reflect.Int, reflect.Int64:
 			i, err := strconv.Atoi(f.value)
 			if err != nil {
-				return fmt.Errorf("failed to convert string to int: %w", err)
+				return utils.NewSafeError(err, "failed to convert string to int")
 			}
 
 			val.SetInt(int64(i))
@@ -124,13 +124,13 @@ func (f *String) Unmarshal(v interface{}) error {
 	case *int:
 		i, err := strconv.Atoi(f.value)
 		if err != nil {
-			return fmt.Errorf("failed to convert string to int: %w", err)
+			return utils.NewSafeError(err, "failed to convert string to int")
 		}
 		*val = i
 	case *int64:
 		i, err := strconv.ParseInt(f.value, 10, 64)
 		if err != nil {
-			return fmt.Errorf("failed to convert string to int64: %w", err)
+			return utils.NewSafeError(err, "failed to convert string to int64")
 		}
 		*val = i
 
